@@ -3,7 +3,7 @@
    with the configurations C19_* of harness/src_functions.py), for all inputs. *)
 From Coq Require Import ZArith List Bool Lia.
 From Batchie Require Import Lib.Sexp Lib.PyRt Model.Orchestrate Generated.SrcOrchCmd Proofs.C19SourceCmd Generated.SrcOrchestrate
-  Proofs.C19Base Proofs.C19Main.
+  Proofs.C19Base Proofs.C19Main Proofs.C19Torn.
 Import ListNotations.
 Open Scope Z_scope.
 
@@ -60,12 +60,30 @@ Proof.
   destruct (f_advanced d), (f_training d); reflexivity.
 Qed.
 
-Theorem src_validate_is_model : forall p : plate_path,
-  src_validate_job_dir_and_return_meta p = SOk (meta_of p).
+(* validate_job_dir_and_return_meta since the repair: for EVERY list of marker files the glob may match, whatever they hold -
+   None without a match; else the first match decides: the document it holds if that is a dict with the key
+   n_unobserved_plates, None if json.load raises ValueError, if the document is no dict, if the key is missing *)
+Theorem src_validate_is_model : forall d : marker_dir,
+  src_validate_job_dir_and_return_meta d = SOk (valid_meta d).
+Proof. intros [|[[[m|]|]|] r]; reflexivity. Qed.
+
+(* in a world (tree, torn set): a torn marker is no marker, a whole one is the metadata the tree records *)
+Definition world_meta (torn : torn_set) (p : plate_path) : option jval :=
+  if is_torn torn (fst p) then None else option_map whole_meta (meta_of p).
+
+Lemma valid_meta_world torn p : valid_meta (marker_dir_of torn p) = world_meta torn p.
 Proof.
-  intros [s d]. unfold src_validate_job_dir_and_return_meta, glob_meta, meta_of. cbn [fst snd].
-  destruct (f_meta d); reflexivity.
+  unfold marker_dir_of, world_meta, meta_of. destruct (is_torn torn (fst p)); [reflexivity|].
+  destruct (f_meta (snd p)); reflexivity.
 Qed.
+
+Theorem src_validate_in_world : forall torn (p : plate_path),
+  src_validate_job_dir_and_return_meta (marker_dir_of torn p) = SOk (world_meta torn p).
+Proof. intros torn p. now rewrite src_validate_is_model, valid_meta_world. Qed.
+
+(* the repair is needed: json.load raising on the first match is None, not an exception *)
+Lemma src_validate_torn_is_none r : src_validate_job_dir_and_return_meta (None :: r) = SOk None.
+Proof. reflexivity. Qed.
 
 Theorem src_get_test_screen_is_model : forall (f : fs) (s : step),
   src_get_test_screen_from_job_output (f, s) = SOk (test_screen_of f s).
@@ -91,114 +109,152 @@ Proof.
   rewrite E. cbn [app]. rewrite len0. destruct (selected_plates f i); reflexivity.
 Qed.
 
-(* ---- the loops of examine ---- *)
+(* ---- the loops of examine, on a world with torn markers: the model's examine_t with tfix = true ---- *)
 (* the translation's loop state against the model's exst: the three Optionals are None together; once the metadata of a
-   completed step has been seen, all of them and the leaked loop variable plate_dir are what the model records *)
-Definition xrel (cp : option Z) (pd : plate_path) (ci m : option Z) (st : exst) : Prop :=
-  m = x_meta st /\ (forall v, m = Some v -> cp = Some (x_plate st) /\ ci = Some (x_iter st) /\ x_leak st = Some pd).
+   completed step has been seen, all of them and the leaked loop variable plate_dir are what the model records; the metadata
+   the translation holds is the loaded document of the entry the model holds *)
+Definition xrel (cp : option Z) (pd : plate_path) (ci : option Z) (m : option jval) (st : exst) : Prop :=
+  m = option_map whole_meta (x_meta st) /\
+  (forall v, m = Some v -> cp = Some (x_plate st) /\ ci = Some (x_iter st) /\ x_leak st = Some pd).
 
-Definition inner_body (it : Z) (s : plate_path * option Z * option Z * option Z) (x : Z * plate_path)
-  : sres (plate_path * option Z * option Z * option Z) :=
-  if is_none (meta_of (snd x)) then SNamed 1 (fst (snd x))
+Definition inner_body (torn : torn_set) (it : Z) (s : plate_path * option Z * option Z * option jval) (x : Z * plate_path)
+  : sres (plate_path * option Z * option Z * option jval) :=
+  if is_none (world_meta torn (snd x)) then SNamed 1 (fst (snd x))
   else if negb (plate_index (snd x) =? fst x) then SNamed 2 (fst (snd x))
-  else SOk (snd x, Some (plate_index (snd x)), Some it, meta_of (snd x)).
+  else SOk (snd x, Some (plate_index (snd x)), Some it, world_meta torn (snd x)).
 
-Lemma inner_loop it f :
-  (forall s x, f s x = inner_body it s x) ->
+Lemma inner_loop torn it f :
+  (forall s x, f s x = inner_body torn it s x) ->
   forall pl k pd cp ci m st, xrel cp pd ci m st ->
-  match examine_plates it st (Z.of_nat k) pl with
-  | XNamed w s => sfold f (combine (map Z.of_nat (seq k (length pl))) (map (tag_plate it) pl)) (pd, cp, ci, m) = SNamed w s
-  | XOk st' => exists pd' cp' ci' m',
+  match examine_plates_t true torn it st (Z.of_nat k) pl with
+  | TNamed w s => sfold f (combine (map Z.of_nat (seq k (length pl))) (map (tag_plate it) pl)) (pd, cp, ci, m) = SNamed w s
+  | TOk st' => exists pd' cp' ci' m',
       sfold f (combine (map Z.of_nat (seq k (length pl))) (map (tag_plate it) pl)) (pd, cp, ci, m) = SOk (pd', cp', ci', m')
       /\ xrel cp' pd' ci' m' st'
+  | TRaised _ => False
   end.
 Proof.
   intros Hf pl; induction pl as [|[pidx d] pl IH]; intros k pd cp ci m st R.
   - cbn. exists pd, cp, ci, m. split; [reflexivity | exact R].
-  - cbn [examine_plates length seq map combine sfold]. rewrite Hf. unfold inner_body.
-    unfold meta_of, plate_index, tag_plate. cbn [fst snd].
-    destruct (f_meta d) as [mm|] eqn:Em; cbn [is_none sbind]; [|reflexivity].
+  - cbn [examine_plates_t length seq map combine sfold]. rewrite Hf. unfold inner_body.
+    unfold world_meta, meta_of, plate_index, tag_plate. cbn [fst snd].
+    destruct (is_torn torn (it, pidx)); cbn [is_none sbind]; [reflexivity|].
+    destruct (f_meta d) as [mm|] eqn:Em; cbn [option_map is_none sbind]; [|reflexivity].
     destruct (negb (pidx =? Z.of_nat k)); cbn [sbind]; [reflexivity|].
     replace (Z.of_nat k + 1) with (Z.of_nat (S k)) by lia.
     apply IH. split; [reflexivity|]. intros v _. cbn. repeat split; reflexivity.
 Qed.
 
-Definition outer_body (s : option Z * plate_path * option Z * option Z) (it : iter_path)
-  : sres (option Z * plate_path * option Z * option Z) :=
+Definition outer_body (torn : torn_set) (s : option Z * plate_path * option Z * option jval) (it : iter_path)
+  : sres (option Z * plate_path * option Z * option jval) :=
   let '(cp, pd, ci, m) := s in
   let pls := map (tag_plate (fst it)) (sort_dirs (snd it)) in
   if is_nil pls then SOk (cp, pd, ci, m)
-  else dos r <- sfold (inner_body (fst it)) (enumerate_z pls) (pd, Some 0, ci, m);
+  else dos r <- sfold (inner_body torn (fst it)) (enumerate_z pls) (pd, Some 0, ci, m);
        let '(pd', cp', ci', m') := r in SOk (cp', pd', ci', m').
 
-Lemma outer_loop f :
-  (forall s x, f s x = outer_body s x) ->
+Lemma outer_loop torn f :
+  (forall s x, f s x = outer_body torn s x) ->
   forall l cp pd ci m st, xrel cp pd ci m st ->
-  match examine_iters true st l with
-  | XNamed w s => sfold f l (cp, pd, ci, m) = SNamed w s
-  | XOk st' => exists cp' pd' ci' m', sfold f l (cp, pd, ci, m) = SOk (cp', pd', ci', m') /\ xrel cp' pd' ci' m' st'
+  match examine_iters_t true torn true st l with
+  | TNamed w s => sfold f l (cp, pd, ci, m) = SNamed w s
+  | TOk st' => exists cp' pd' ci' m', sfold f l (cp, pd, ci, m) = SOk (cp', pd', ci', m') /\ xrel cp' pd' ci' m' st'
+  | TRaised _ => False
   end.
 Proof.
   intros Hf l; induction l as [|[i raw] l IH]; intros cp pd ci m st R.
   - cbn. exists cp, pd, ci, m. split; [reflexivity | exact R].
-  - cbn [examine_iters sfold]. rewrite Hf. unfold outer_body, examine_iter. cbn [fst snd].
+  - cbn [examine_iters_t sfold]. rewrite Hf. unfold outer_body, examine_iter_t. cbn [fst snd].
     destruct (sort_dirs raw) as [|p pl] eqn:Es.
-    + cbn [map is_nil andb examine_plates xbind sbind]. apply IH, R.
+    + cbn [map is_nil andb examine_plates_t tbind sbind]. apply IH, R.
     + assert (Hn : is_nil (map (tag_plate i) (p :: pl)) = false) by reflexivity. rewrite Hn.
       assert (Hn2 : (true && Orchestrate.is_nil (p :: pl)) = false) by reflexivity. rewrite Hn2.
       unfold enumerate_z. rewrite map_length.
       assert (R0 : xrel (Some 0) pd ci m (mkx (x_meta st) (x_iter st) 0 (x_leak st))).
       { destruct R as [R1 R2]. split; [exact R1|]. intros v Hv. destruct (R2 v Hv) as (_ & Hi & Hl).
         cbn. repeat split; assumption. }
-      pose proof (inner_loop i (inner_body i) (fun _ _ => eq_refl) (p :: pl) 0 pd (Some 0) ci m _ R0) as H.
+      pose proof (inner_loop torn i (inner_body torn i) (fun _ _ => eq_refl) (p :: pl) 0 pd (Some 0) ci m _ R0) as H.
       change (Z.of_nat 0) with 0 in H.
-      destruct (examine_plates i (mkx (x_meta st) (x_iter st) 0 (x_leak st)) 0 (p :: pl)) as [st'|w s].
-      * destruct H as (pd' & cp' & ci' & m' & E & R'). rewrite E. cbn [sbind xbind]. apply IH, R'.
+      destruct (examine_plates_t true torn i (mkx (x_meta st) (x_iter st) 0 (x_leak st)) 0 (p :: pl)) as [st'|w s|w].
+      * destruct H as (pd' & cp' & ci' & m' & E & R'). rewrite E. cbn [sbind tbind]. apply IH, R'.
       * rewrite H. reflexivity.
+      * destruct H.
 Qed.
 
-Theorem src_examine_is_model : forall (f : fs) (bs : Z),
-  src_examine f bs = sres_of_xres (examine true bs f).
+(* examine on a world with torn markers IS the model's examine_t with both repairs (fixed = true: an iteration directory
+   without plate directories is skipped; tfix = true: an unreadable marker is a missing marker), for EVERY tree, torn set and
+   batch size; the metadata it hands on is the loaded document of the model's entry *)
+Theorem src_examine_is_model_t : forall (tf : tfs) (bs : Z),
+  src_examine tf bs = sres_of_tres (tres_map up_meta (examine_t true true bs tf)).
 Proof.
-  intros f bs. unfold src_examine, examine.
+  intros [f torn] bs. unfold src_examine, examine_t. cbn [fst snd].
   rewrite filter_all. unfold glob_iters. rewrite sort_by_iter.
   match goal with |- context [sfold ?F (sort_dirs f) ?S] => set (body := F) end.
-  assert (Hb : forall s x, body s x = outer_body s x).
+  assert (Hb : forall s x, body s x = outer_body torn s x).
   { intros [[[cp pd] ci] m] it. unfold body, outer_body. rewrite glob_plates_sorted.
     destruct (map (tag_plate (fst it)) (sort_dirs (snd it))) as [|p pl] eqn:Ep; [reflexivity|].
     cbn [is_nil negb].
     match goal with |- sbind ?X _ = sbind ?Y _ => replace X with Y end.
     - match goal with |- sbind ?Y _ = _ => destruct Y as [[[[pd' cp'] ci'] m']|w s|d w] end; reflexivity.
     - apply sfold_ext. intros [[[a b] c] d] [idx q]. unfold inner_body. cbn [fst snd].
-      rewrite !src_validate_is_model. cbn [sbind].
-      destruct (is_none (meta_of q)); [reflexivity|]. destruct (negb (plate_index q =? idx)); reflexivity. }
+      rewrite !src_validate_in_world. cbn [sbind].
+      destruct (is_none (world_meta torn q)); [reflexivity|]. destruct (negb (plate_index q =? idx)); reflexivity. }
   assert (R0 : xrel None ((0, 0), empty_pdir) None None exst0).
   { split; [reflexivity|]. intros v Hv. discriminate Hv. }
-  pose proof (outer_loop body Hb (sort_dirs f) _ _ _ _ _ R0) as H.
-  destruct (examine_iters true exst0 (sort_dirs f)) as [st|w s].
-  - destruct H as (cp & pd & ci & m & E & R1 & R2). rewrite E. cbn [sbind xbind].
-    destruct m as [v|]; rewrite <- R1; cbn [is_none]; [|reflexivity].
-    destruct (R2 v eq_refl) as (Hc & Hi & Hl). subst cp ci. rewrite Hl. cbn [sunwrap sbind].
+  pose proof (outer_loop torn body Hb (sort_dirs f) _ _ _ _ _ R0) as H.
+  destruct (examine_iters_t true torn true exst0 (sort_dirs f)) as [st|w s|w].
+  - destruct H as (cp & pd & ci & m & E & R1 & R2). rewrite E. cbn [sbind tbind].
+    destruct (x_meta st) as [v|] eqn:Ex; cbn [option_map] in R1; subst m; cbn [is_none]; [|reflexivity].
+    destruct (R2 _ eq_refl) as (Hc & Hi & Hl). subst cp ci. rewrite Hl. cbn [sunwrap sbind].
     rewrite src_get_screen_is_model. unfold screen_of_path.
-    destruct (x_plate st >=? bs - 1); cbn [sbind sres_of_xres]; reflexivity.
+    destruct (x_plate st >=? bs - 1); cbn [sbind tres_map sres_of_tres up_meta option_map]; reflexivity.
   - rewrite H. reflexivity.
+  - destruct H.
 Qed.
 
-(* The model parameter [fixed] is determined by the source: the translation is the repaired examine and not the
-   unrepaired one - they differ on the tree of the witness of resume_refuted_empty_iter (iter_0 complete for batch size 2,
-   iter_1 created but empty: crash between the two makedirs levels). *)
+(* no torn marker: the model's examine *)
+Theorem src_examine_is_model : forall (f : fs) (bs : Z),
+  src_examine (f, []) bs = sres_of_xres (xres_map up_meta (examine true bs f)).
+Proof.
+  intros f bs. rewrite src_examine_is_model_t, examine_t_nil.
+  destruct (examine true bs f); reflexivity.
+Qed.
+
+(* The model parameters [fixed] and [tfix] are determined by the source: the translation is the examine with both repairs and
+   no other.  Without the first it differs on the tree of the witness of resume_refuted_empty_iter (iter_0 complete for batch
+   size 2, iter_1 created but empty: crash between the two makedirs levels); without the second on the world the witness of
+   resume_refuted_torn_marker leaves behind (step (1,0) holds a torn marker). *)
 Definition tree_empty_iter : fs := fst (script_run Retro false 2 4 [] (firstn 3 Proofs.C19Main.witness_empty_iter)).
+Definition world_torn_marker : tfs := fst (script_run_t false Retro true 1 3 ([], []) witness_torn).
 
 Lemma src_examine_not_unrepaired :
-  src_examine tree_empty_iter 2 <> sres_of_xres (examine false 2 tree_empty_iter).
+  src_examine (tree_empty_iter, []) 2 <> sres_of_xres (xres_map up_meta (examine false 2 tree_empty_iter)).
 Proof. rewrite src_examine_is_model. vm_compute. discriminate. Qed.
 
+Lemma src_examine_not_raising_on_torn :
+  src_examine world_torn_marker 1 <> sres_of_tres (tres_map up_meta (examine_t false true 1 world_torn_marker)).
+Proof. rewrite src_examine_is_model_t. vm_compute. discriminate. Qed.
+
 Theorem src_examine_determines_fixed : forall fixed,
-  (forall f bs, src_examine f bs = sres_of_xres (examine fixed bs f)) <-> fixed = true.
+  (forall f bs, src_examine (f, []) bs = sres_of_xres (xres_map up_meta (examine fixed bs f))) <-> fixed = true.
 Proof.
   intros fixed; split.
   - intros H. destruct fixed; [reflexivity|]. exfalso. exact (src_examine_not_unrepaired (H _ _)).
   - intros ->. exact src_examine_is_model.
+Qed.
+
+Theorem src_examine_determines_repairs : forall tfix fixed,
+  (forall tf bs, src_examine tf bs = sres_of_tres (tres_map up_meta (examine_t tfix fixed bs tf))) <-> tfix = true /\ fixed = true.
+Proof.
+  intros tfix fixed; split.
+  - intros H. destruct tfix.
+    + split; [reflexivity|]. apply src_examine_determines_fixed. intros f bs. rewrite H, examine_t_nil.
+      destruct (examine fixed bs f); reflexivity.
+    + exfalso. destruct fixed.
+      * exact (src_examine_not_raising_on_torn (H _ _)).
+      * specialize (H (tree_empty_iter, []) 2). rewrite examine_t_nil in H. apply src_examine_not_unrepaired.
+        rewrite H. destruct (examine false 2 tree_empty_iter); reflexivity.
+  - intros [-> ->]. exact src_examine_is_model_t.
 Qed.
 
 (* ================= run_next_retrospective_step / run_next_prospective_step ================= *)
@@ -319,38 +375,71 @@ Local Ltac retro_tail f i j scr :=
   | rewrite src_get_thetas_is_model, (next_step_tail f i j scr _ Ej); unfold next_action;
     destruct (has_thetas_dist f (i, 0)); [destruct scr|]; reflexivity ].
 
-Theorem src_run_next_retro_is_model : forall (f : fs) (extra : eargs) (bs : Z),
-  src_run_next_retrospective_step f SInput extra bs = result_of_plan Retro bs (plan_of Retro true bs f).
+(* a call of run_next_* on a world with torn markers: what step_result_t says - the translated examine decides whether a
+   directory is named (a torn marker: "invalid structure", like a missing one); if none is, the call is the model's plan on the
+   tree component.  The metadata lookup meta["n_unobserved_plates"] never raises: the document examine hands on has the key *)
+Theorem src_run_next_retro_is_model_t : forall (tf : tfs) (extra : eargs) (bs : Z),
+  src_run_next_retrospective_step tf SInput extra bs = step_result_t true Retro true bs tf.
 Proof.
-  intros f extra bs. unfold src_run_next_retrospective_step, plan_of. cbn [tree_after fold_left].
-  rewrite src_examine_is_model.
-  destruct (examine true bs f) as [[[[i j] meta] scr]|w s]; cbn [sres_of_xres sbind result_of_plan]; [|reflexivity].
-  destruct meta as [m|]; cbn [is_some sunwrap sbind].
+  intros [f torn] extra bs. unfold src_run_next_retrospective_step, step_result_t, plan_of.
+  change (tfs_after (f, torn) []) with (f, torn). cbn [tree_after fold_left fst snd].
+  rewrite src_examine_is_model_t.
+  destruct (examine_t true true bs (f, torn)) as [[[[i j] meta] scr]|w s|w] eqn:Et;
+    cbn [tres_map sres_of_tres up_meta sbind]; [|reflexivity|reflexivity].
+  apply examine_t_ok in Et. cbn [fst] in Et. rewrite Et. cbn [result_of_plan].
+  destruct meta as [m|]; cbn [option_map is_some sunwrap sbind whole_meta jget_nup].
   - destruct (m <=? 0); [reflexivity|]. retro_tail f i j scr.
   - retro_tail f i j scr.
 Qed.
 
-Theorem src_run_next_prosp_is_model : forall (f : fs) (extra : eargs) (bs : Z),
-  src_run_next_prospective_step f SInput extra bs = result_of_plan Prosp bs (plan_of Prosp true bs f).
+Theorem src_run_next_prosp_is_model_t : forall (tf : tfs) (extra : eargs) (bs : Z),
+  src_run_next_prospective_step tf SInput extra bs = step_result_t true Prosp true bs tf.
 Proof.
-  intros f extra bs. unfold src_run_next_prospective_step, plan_of. cbn [tree_after fold_left].
-  rewrite src_examine_is_model.
-  destruct (examine true bs f) as [[[[i j] meta] scr]|w s]; cbn [sres_of_xres sbind result_of_plan]; [|reflexivity].
+  intros [f torn] extra bs. unfold src_run_next_prospective_step, step_result_t, plan_of.
+  change (tfs_after (f, torn) []) with (f, torn). cbn [tree_after fold_left fst snd].
+  rewrite src_examine_is_model_t.
+  destruct (examine_t true true bs (f, torn)) as [[[[i j] meta] scr]|w s|w] eqn:Et;
+    cbn [tres_map sres_of_tres up_meta sbind]; [|reflexivity|reflexivity].
+  apply examine_t_ok in Et. cbn [fst] in Et. rewrite Et. cbn [result_of_plan].
   rewrite src_get_selected_is_model. cbn [sbind app fst].
   destruct (j =? 0) eqn:Ej; [builders; reflexivity|].
   rewrite src_get_thetas_is_model, (next_step_tail f i j (Some SInput) _ Ej). unfold next_action.
   destruct (has_thetas_dist f (i, 0)); reflexivity.
 Qed.
 
+(* on a well-formed world (a torn marker's directory records no metadata) - in particular without torn markers - a call is
+   the model's plan on the tree component *)
+Lemma step_result_t_wf md fixed bs tf : torn_wf tf ->
+  step_result_t true md fixed bs tf = result_of_plan md bs (plan_of md fixed bs (fst tf)).
+Proof.
+  intros Hwf. unfold step_result_t, plan_of. rewrite (examine_t_repaired_is_missing fixed bs tf Hwf).
+  destruct (examine fixed bs (fst tf)) as [a|w s]; reflexivity.
+Qed.
+
+Lemma torn_wf_nil f : torn_wf (f, []).
+Proof. intros it pl pidx d _ _ H. discriminate H. Qed.
+
+Theorem src_run_next_retro_is_model : forall (f : fs) (extra : eargs) (bs : Z),
+  src_run_next_retrospective_step (f, []) SInput extra bs = result_of_plan Retro bs (plan_of Retro true bs f).
+Proof. intros f extra bs. rewrite src_run_next_retro_is_model_t. apply (step_result_t_wf Retro true bs (f, [])), torn_wf_nil. Qed.
+
+Theorem src_run_next_prosp_is_model : forall (f : fs) (extra : eargs) (bs : Z),
+  src_run_next_prospective_step (f, []) SInput extra bs = result_of_plan Prosp bs (plan_of Prosp true bs f).
+Proof. intros f extra bs. rewrite src_run_next_prosp_is_model_t. apply (step_result_t_wf Prosp true bs (f, [])), torn_wf_nil. Qed.
+
 (* ---- the value a call hands back to main() ---- *)
-Definition src_run_next (md : mode) (f : fs) (extra : eargs) (bs : Z) : sres (bool * list action) :=
+Definition src_run_next (md : mode) (tf : tfs) (extra : eargs) (bs : Z) : sres (bool * list action) :=
   match md with
-  | Retro => src_run_next_retrospective_step f SInput extra bs
-  | Prosp => src_run_next_prospective_step f SInput extra bs
+  | Retro => src_run_next_retrospective_step tf SInput extra bs
+  | Prosp => src_run_next_prospective_step tf SInput extra bs
   end.
 
+Theorem src_run_next_is_model_t : forall md tf extra bs,
+  src_run_next md tf extra bs = step_result_t true md true bs tf.
+Proof. intros [|] tf extra bs; [apply src_run_next_retro_is_model_t | apply src_run_next_prosp_is_model_t]. Qed.
+
 Theorem src_run_next_is_model : forall md f extra bs,
-  src_run_next md f extra bs = result_of_plan md bs (plan_of md true bs f).
+  src_run_next md (f, []) extra bs = result_of_plan md bs (plan_of md true bs f).
 Proof. intros [|] f extra bs; [apply src_run_next_retro_is_model | apply src_run_next_prosp_is_model]. Qed.
 
 Lemma plan_acts_shape md fixed bs f acts :
@@ -367,11 +456,11 @@ Qed.
 
 (* whenever the model says a call returns b to main() (call_returns: it was not interrupted, the script did not raise,
    the pipeline's exit status was 0), b is the value the translated function returns *)
-Theorem call_returns_is_source : forall md bs n f e extra b,
+Lemma call_returns_plan : forall md bs n f e b,
   call_returns md bs (snd (attempt md true bs n f e)) = Some b ->
-  exists acts, src_run_next md f extra bs = SOk (b, acts).
+  exists acts, result_of_plan md bs (plan_of md true bs f) = SOk (b, acts).
 Proof.
-  intros md bs n f e extra b. rewrite src_run_next_is_model. unfold attempt.
+  intros md bs n f e b. unfold attempt.
   destruct (plan_of md true bs f) as [w s| |acts] eqn:Ep; cbn [snd call_returns result_of_plan].
   - discriminate.
   - intros H; injection H as <-. eexists; reflexivity.
@@ -382,4 +471,23 @@ Proof.
                <=? e_k e - 4)%nat && complete_run md l (outputs n (fold_left (fun f a => apply_action a f) (firstn 3 [a0; b0; c0; ALaunch s l]) f) l));
       [|discriminate].
     intros H; injection H as <-. eexists; reflexivity.
+Qed.
+
+Theorem call_returns_is_source : forall md bs n f e extra b,
+  call_returns md bs (snd (attempt md true bs n f e)) = Some b ->
+  exists acts, src_run_next md (f, []) extra bs = SOk (b, acts).
+Proof. intros md bs n f e extra b H. rewrite src_run_next_is_model. exact (call_returns_plan md bs n f e b H). Qed.
+
+(* the same on a world with torn markers, for the model's attempt_t with the repair *)
+Theorem call_returns_is_source_t : forall md bs n tf te extra b,
+  call_returns md bs (snd (attempt_t true md true bs n tf te)) = Some b ->
+  exists acts, src_run_next md tf extra bs = SOk (b, acts).
+Proof.
+  intros md bs n tf te extra b. rewrite src_run_next_is_model_t. unfold attempt_t, step_result_t.
+  destruct (examine_t true true bs tf) as [[[[i j] meta] scr]|w s|w]; cbn [snd call_returns]; try discriminate.
+  pose proof (call_returns_plan md bs n (fst tf) (te_e te) b) as H.
+  destruct (attempt md true bs n (fst tf) (te_e te)) as [f1 g]. cbn [snd] in H.
+  destruct g as [w s| |k|w|s l ps ok]; cbn [snd]; try exact H.
+  destruct (te_torn te && last_is_meta ps && Nat.eqb (length ps) (e_k (te_e te) - 4)); cbn [snd call_returns]; [discriminate|].
+  destruct (te_torn te && ok && Nat.eqb (S (length ps)) (e_k (te_e te) - 4)); cbn [snd call_returns]; [discriminate|exact H].
 Qed.
